@@ -114,10 +114,12 @@ def encode(c):
 
 
 def distribution(cases):
-    d = dict(groups={}, modes={}, raw=0, nodes_hist={}, calls_hist={}, accepted=0, rejected_some=0, ran=0, enum_scripts=0)
+    d = dict(groups={}, modes={}, generations={}, raw=0, nodes_hist={}, calls_hist={}, accepted=0, rejected_some=0, ran=0, enum_scripts=0)
     for c in cases:
         d["groups"][c["grp"]] = d["groups"].get(c["grp"], 0) + 1
         i, o = c["in"], c["obs"]
+        g = str(i.get("gen", 0))
+        d["generations"][g] = d["generations"].get(g, 0) + 1
         if c["grp"] == "run":
             d["modes"][i["mode"]] = d["modes"].get(i["mode"], 0) + 1
             d["raw"] += bool(i["raw"])
@@ -149,6 +151,10 @@ def shrink_candidates(inp, grp):
     if grp != "run":
         return
     import copy
+    if inp.get("gen"):
+        c = copy.deepcopy(inp)
+        c["gen"] = 0
+        yield c
     # drop before / after, shorten the script, drop flow nodes, drop jumpIf entries, drop aliases/namespaces
     for side in ("before", "after"):
         if inp.get(side):
